@@ -9,7 +9,7 @@ from . import common
 
 ID = "C05"
 LEVEL = "exploration"
-BUDGET = {"quick": 1600, "thorough": 400000}
+BUDGET = {"quick": 4800, "thorough": 400000}
 RULE = ("Hypothesis-generated 2D/3D plotfiles (1-3 nested levels, mixed box extents, boxes scattered over 1-4 "
         "binary files in any on-disk order, coded/random/special-float payloads, non-zero origins, anisotropic "
         "cells) x ordered variable selection (permuted subsets, unknown names, 'all') x level limit x output path "
